@@ -149,6 +149,17 @@ Theorem C15_laplace_prior_concave :
 Proof. exact lap_concave. Qed.
 Print Assumptions C15_laplace_prior_concave.
 
+(* (4) composition with a linear map keeps the inequality: x |-> h(D x) with (super)gradient D^T gh(D x); hence LMRF
+   (h = Laplace o difference operator D, as coded: -sum_i w |(D x)_i - loc_i|) is covered as well *)
+Theorem C15_lmrf_prior_concave :
+  (forall (k n : nat) (D : rmat) (h : rvec -> R) (gh : rvec -> rvec),
+     (forall u v, h v <= h u + ip k (gh u) (rsub v u) - 0 / 2 * nsq k (rsub v u)) ->
+     forall x y, h (mv D n y) <= h (mv D n x) + ip n (mtv D k (gh (mv D n x))) (rsub y x) - 0 / 2 * nsq n (rsub y x)) /\
+  (forall (k n : nat) (D : rmat) (loc w : rvec), (forall i, (i < k)%nat -> 0 <= w i) ->
+     forall x y, lap k loc w (mv D n y) <= lap k loc w (mv D n x) + ip n (mtv D k (glap loc w (mv D n x))) (rsub y x) - 0 / 2 * nsq n (rsub y x)).
+Proof. split; [exact compose_linear_concave | exact lmrf_concave]. Qed.
+Print Assumptions C15_lmrf_prior_concave.
+
 (* non-vacuity of the chain with a SmoothedLaplace prior (A = 1, Pe = 1, data 1, loc 0, scale 1, beta = 3/4, mu = 1, mh = 0, xs = 1/2):
    every hypothesis of C15_gauss_plus_concave_maximiser holds, the concavity one by C15_prior_classes_concave (3) *)
 Example C15_smoothed_laplace_example :
